@@ -47,6 +47,14 @@ def encode (E M : Nat) : FVal → Nat
 /-- parse a literal of the given bit pattern and print it again in hexadecimal notation -/
 def reprint (E M b : Nat) : Nat := encode E M (decode E M b)
 
+/-- the SPELLING of an fp128 value: LLVM writes (and reads) the low 64 bits first — `0xL` + 16 digits of the low word + 16 digits of the high word
+    (LLLexer HexToIntPair builds the APInt from the pair in little-endian word order); ir/constant/const_float.go swaps the words when it reads and
+    when it prints -/
+def swapWords (x : Nat) : Nat := x % 2 ^ 64 * 2 ^ 64 + x / 2 ^ 64 % 2 ^ 64
+
+/-- what is printed for an fp128 literal given by the number its 32 digits spell -/
+def reprint128Lit (lit : Nat) : Nat := swapWords (reprint 15 112 (swapWords lit))
+
 /-! ### x86_fp80: 16 bits sign+exponent, 64-bit significand with explicit integer bit -/
 def decode80 (se m : Nat) : FVal :=
   let s : Bool := se / 2 ^ 15 % 2 == 1
